@@ -19,10 +19,12 @@ R11.2 table totality: every entry of CFG_METADATA / CFG_ANALYSIS is
 R11.3 rejection paths: unknown key, unknown section, empty string and None
       each emit a warning and never reach the store (evaluated on the
       syntax trees of ``__setitem__`` and ``verify_section_key``).
-R11.4 writer / reader: ``store_metadata`` pipes every non-user value through
+R11.4 writer / reader (both interpreted on model data, not matched
+      syntactically): ``store_metadata`` pipes every non-user value through
       ``get_config_value_func(sec, ck)`` of the same section/key, decodes
-      bytes, refuses unknown sections/keys; ``parse_config`` decodes bytes
-      and assigns through a checking ``Configuration``; ``load_from_file``
+      bytes, refuses unknown sections/keys; ``parse_config`` (given a path
+      or an open file) decodes bytes and assigns every attribute through a
+      checking ``Configuration``; ``load_from_file``
       converts known keys, and – interpreted on a model file with mixed-case
       keys – yields what item assignment of the same text stores; export carries all CFG_METADATA sections + user.
 R11.5 type closure of the converters: evaluated over modelled Python / numpy
@@ -431,11 +433,32 @@ def build_config_model(repo, mc, ml):
     globs["UserDict"] = Namespace("UserDict", __setitem__=lambda s, k, v:
                                   rec_box[0].stored.append((k, v)))
     fset = Func(f_set, globs, interp)
+    own = {f.name: f for f in repo.cls(CONF, "ConfigurationDict").body
+           if isinstance(f, ast.FunctionDef)}
+
+    class SelfObj(Namespace):
+        """instance stand-in: other methods of the class are interpreted
+        when __setitem__ calls them (helper extraction)"""
+
+        def model_getattr(self, attr):
+            if attr in self.__dict__:
+                return self.__dict__[attr]
+            if attr in own and attr not in ("__setitem__", "__init__"):
+                fn = Func(own[attr], globs, interp)
+                me = self
+
+                def bound(*a, **k):
+                    return fn(me, *a, **k)
+                bound.model_callable = True
+                return bound
+            raise AnalysisError(
+                f"ConfigurationDict.__setitem__ uses self.{attr}, which is "
+                "not modelled")
 
     def setitem(section, key, value):
         rec_box[0] = Recorder()
         interp.steps = 0
-        self = Namespace("self", section=section, __class__=cls, _k=bound_k)
+        self = SelfObj("self", section=section, __class__=cls, _k=bound_k)
         try:
             fset(self, key, value)
         except ModelRaise as e:
@@ -989,6 +1012,11 @@ def r111(ctx, repo):
         params = [a.arg for a in f.args.args]
         if len(params) < 2 or params[1] != "key" or name == "_k":
             continue
+        reaches = any(_is_super_call(c) for c in walk(f)
+                      if isinstance(c, ast.Call)) or any(
+            is_self_attr(n, "data") for n in walk(f))
+        if not reaches:
+            continue    # helper that never touches the underlying mapping
         bad = []
         renorm = False
         for s in f.body:
@@ -1134,175 +1162,227 @@ def _section_expr_ok(e, sec_txt):
 # ----------------------------------------------------------------------
 # R11.4
 
-def r114(ctx, repo, setitem):
+class _Conv:
+    """value that went through get_config_value_func(sec, key)"""
+
+    def __init__(self, sec, key, value):
+        self.sec, self.key, self.value = sec, key, value
+
+    def __repr__(self):
+        return f"conv[{self.sec}:{self.key}]({self.value!r})"
+
+
+def _writer_model(repo, mc, ml):
+    """store(meta) -> (attrs written, error name or None, meta afterwards):
+    RTDCWriter.store_metadata interpreted on a model file"""
     sm = repo.func(WR, "RTDCWriter.store_metadata")
-    # attribute stores
-    stores = [n for n in walk(sm) if isinstance(n, ast.Assign) and any(
-        isinstance(t, ast.Subscript) and "attrs" in txt(t.value)
-        for t in n.targets)]
-    if len(stores) < 2:
-        raise AnalysisError("store_metadata: attribute stores lost")
+    interp = Interp()
 
-    def is_user_test(e):
-        return isinstance(e, ast.Compare) and len(e.ops) == 1 and {
-            txt(e.left), txt(e.comparators[0])} >= {"'user'"}
+    def get_func(section, key):
+        def conv(v):
+            return _Conv(section, key, v)
+        conv.model_callable = True
+        return conv
+    dfn = Namespace("dfn", CFG_METADATA=mc.CFG_METADATA,
+                    CFG_ANALYSIS=mc.CFG_ANALYSIS, config_keys=mc.config_keys,
+                    config_key_exists=ml.config_key_exists,
+                    get_config_value_func=get_func)
+    globs = {"dfn": dfn, "copy": Namespace("copy", deepcopy=_copy.deepcopy)}
 
-    def under_user(n):
-        """True / False / None: inside `sec == 'user'` true / false branch"""
-        child = n
-        p = n.parent
-        res = None
-        while p is not None and p is not sm:
-            if isinstance(p, ast.If) and is_user_test(p.test):
-                pos = isinstance(p.test.ops[0], ast.Eq)
-                in_body = any(child is s for s in p.body)
-                res = (in_body == pos)
-                break
-            child = p
-            p = p.parent
-        return res
-    n_conv = 0
-    for s in stores:
-        tgt = [t for t in s.targets if isinstance(t, ast.Subscript)][0]
-        loops = [a for a in _ancestors(s) if isinstance(a, ast.For)]
-        if len(loops) < 2:
-            raise AnalysisError("store_metadata: write loop not recognised")
-        ck, sec = txt(loops[0].target), txt(loops[1].target)
-        user = under_user(s)
-        if user:
-            ok = isinstance(s.value, ast.Name)
-            ctx.ob("R11.4", ok, "user-defined values are written as given"
-                   if ok else "user-defined values are altered on write",
-                   node=s, label="user stored as is")
-            continue
-        n_conv += 1
-        v = s.value
-        ok = False
-        why = "the value is written without the converter"
-        if isinstance(v, ast.Call) and len(v.args) == 1:
-            fn = v.func
-            call = None
-            if isinstance(fn, ast.Name):
-                d = [a for a in walk(sm) if isinstance(a, ast.Assign)
-                     and any(isinstance(t, ast.Name) and t.id == fn.id
-                             for t in a.targets)]
-                if len(d) == 1 and isinstance(d[0].value, ast.Call):
-                    call = d[0].value
-            elif isinstance(fn, ast.Call):
-                call = fn
-            if call is not None and last_attr(call) == \
-                    "get_config_value_func":
-                a = [txt(x) for x in call.args] + [
-                    txt(k.value) for k in call.keywords]
-                ok = a == [sec, ck]
-                why = (f"converter looked up for ({', '.join(a)}), not "
-                       f"({sec}, {ck})")
-        ctx.ob("R11.4", ok, "non-user values are piped through "
-               "get_config_value_func(section, key)" if ok else
-               f"store_metadata: {why}", node=s,
-               label="converter on write")
-        # attribute name = "section:key"
-        idk = tgt.slice
-        if isinstance(idk, ast.Name):
-            d = [a for a in walk(sm) if isinstance(a, ast.Assign) and any(
-                isinstance(t, ast.Name) and t.id == idk.id
-                for t in a.targets)]
-            idk = d[0].value if len(d) == 1 else idk
-        ok = False
-        if isinstance(idk, ast.JoinedStr):
-            parts = [p.value if isinstance(p, ast.Constant) else
-                     "{" + txt(p.value) + "}" for p in idk.values]
-            ok = "".join(parts) == "{" + sec + "}:{" + ck + "}"
-        elif isinstance(idk, ast.Call) and last_attr(idk) == "format":
-            ok = const_str(idk.func.value) == "{}:{}" and [
-                txt(a) for a in idk.args] == [sec, ck]
-        ctx.ob("R11.4", ok, "the attribute is named 'section:key'" if ok else
-               f"attribute name `{short(idk, 40)}` is not 'section:key'",
-               node=s, label="attribute name")
-    if n_conv < 1:
-        raise AnalysisError("store_metadata: converted store lost")
-    # bytes decoded before the store
-    dec = [n for n in walk(sm) if isinstance(n, ast.If)
-           and isinstance(n.test, ast.Call) and call_name(n.test) ==
-           "isinstance" and "bytes" in txt(n.test.args[1])
-           and any(last_attr(c) == "decode" for c in find_calls(
-               n, attr="decode"))]
-    ok = bool(dec) and all(dec[0].lineno < s.lineno for s in stores)
-    ctx.ob("R11.4", ok, "bytes values are decoded before they are stored"
-           if ok else "bytes values are no longer decoded on write",
-           node=dec[0] if dec else sm, label="bytes decoded on write")
-    # validation loop: unknown section / key raise
-    raises = [n for n in walk(sm) if isinstance(n, ast.Raise)]
-    sec_guard = key_guard = False
-    for r in raises:
-        p = r.parent
-        if isinstance(p, ast.If):
-            t = txt(p.test)
-            if "CFG_METADATA" in t and isinstance(p.test, ast.Compare) \
-                    and isinstance(p.test.ops[0], ast.NotIn):
-                sec_guard = True
-            if "config_key_exists" in t and isinstance(
-                    p.test, ast.UnaryOp):
-                key_guard = True
-    ctx.ob("R11.4", sec_guard, "sections outside CFG_METADATA (other than "
-           "user) are refused" if sec_guard else
-           "store_metadata accepts sections outside CFG_METADATA", node=sm,
-           label="section guard")
-    ctx.ob("R11.4", key_guard, "keys unknown to config_key_exists are "
-           "refused" if key_guard else "store_metadata accepts unknown keys",
-           node=sm, label="key guard")
-    # the user `continue` must not skip the checks of other sections:
-    # guards precede the write loop
-    cp = [n for n in walk(sm) if isinstance(n, ast.Assign)
-          and "deepcopy" in txt(n.value)]
-    ctx.ob("R11.4", bool(cp), "the caller's mapping is copied before it is "
-           "modified" if cp else "store_metadata modifies the caller's "
-           "metadata in place", node=cp[0] if cp else sm,
-           label="works on a copy", nontrivial=False)
+    def store(meta):
+        attrs = {}
 
-    # reader
+        def brand(old_version=None, write_attribute=True):
+            return "dclab model" if not old_version else (
+                f"{old_version} | dclab model")
+        me = Namespace("self", h5file=Namespace("h5file", attrs=attrs),
+                       version_brand=brand, path="model.rtdc")
+        interp.steps = 0
+        err = None
+        try:
+            Func(sm, globs, interp)(me, meta)
+        except ModelRaise as e:
+            err = e.name
+        return attrs, err
+    return sm, store
+
+
+def _reader_model(repo):
+    """parse(attrs, as_path) -> (assignments [(section, key, value)],
+    Configuration kwargs, raw writes, error)"""
     pc = repo.func(H5, "RTDC_HDF5.parse_config")
-    cfgs = [n for n in walk(pc) if isinstance(n, ast.Assign)
-            and isinstance(n.value, ast.Call)
-            and call_name(n.value) == "Configuration"]
-    if len(cfgs) != 1:
-        raise AnalysisError("parse_config: Configuration() creation lost")
-    cname = cfgs[0].targets[0].id
-    dc = kwarg(cfgs[0].value, "disable_checks", 2)
-    ok = dc is None or txt(dc) == "False"
-    ctx.ob("R11.4", ok, "the parsed configuration validates its keys" if ok
-           else "parse_config builds the configuration with checks disabled "
-           "(values are stored unconverted)", node=cfgs[0],
-           label="checking Configuration")
-    assigns = [n for n in walk(pc) if isinstance(n, ast.Assign)
-               and isinstance(n.targets[0], ast.Subscript)
-               and isinstance(n.targets[0].value, ast.Subscript)
-               and isinstance(n.targets[0].value.value, ast.Name)
-               and n.targets[0].value.value.id == cname]
-    ok = len(assigns) == 1
-    if ok:
-        a = assigns[0]
-        lp = [x for x in _ancestors(a) if isinstance(x, ast.For)]
-        sp = [n for n in walk(pc) if isinstance(n, ast.Assign)
-              and isinstance(n.targets[0], ast.Tuple)
-              and last_attr(n.value) == "split"]
-        ok = bool(lp) and len(sp) == 1 and const_str(
-            sp[0].value.args[0]) == ":" and [
-            txt(e) for e in sp[0].targets[0].elts] == [
-            txt(a.targets[0].value.slice), txt(a.targets[0].slice)] \
-            and txt(lp[0].target) in txt(a.value)
-    ctx.ob("R11.4", ok, "every attribute 'section:key' is assigned as "
-           "config[section][key] (validating item assignment)" if ok else
-           "parse_config no longer assigns config[section][key] for every "
-           "attribute", node=assigns[0] if assigns else pc,
-           label="assign through funnel")
-    dec = [n for n in walk(pc) if isinstance(n, ast.If)
-           and "bytes" in txt(n.test) and find_calls(n, attr="decode")]
-    ok = bool(dec) and assigns and dec[0].lineno < assigns[0].lineno
-    ctx.ob("R11.4", bool(ok), "byte-string attributes are decoded before "
-           "they are assigned" if ok else "byte-string attributes reach the "
-           "configuration undecoded", node=dec[0] if dec else pc,
-           label="bytes decoded on read")
+    interp = Interp()
+    box = {}
+
+    class File(Namespace):
+        def __init__(self, *a, **k):
+            super().__init__("h5file", attrs=dict(box["attrs"]))
+            box["opened"] = (a, k)
+
+    class Section:
+        model_object = True
+
+        def __init__(self, name):
+            self.name = name
+            self.data = _Raw(name)
+
+        def model_setitem(self, key, value):
+            box["assigned"].append((self.name, key, value))
+
+        def update(self, other):
+            for k, v in dict(other).items():
+                self.model_setitem(k, v)
+
+    class _Raw(dict):
+        def __init__(self, name):
+            super().__init__()
+            self.name = name
+
+        def __setitem__(self, k, v):
+            box["raw"].append((self.name, k, v))
+
+    class Config:
+        model_object = True
+
+        def __init__(self, *a, **k):
+            box["cfg_args"] = (a, k)
+            self.secs = {}
+
+        def __getitem__(self, sec):
+            return self.secs.setdefault(sec, Section(sec))
+    globs = {"h5py": Namespace("h5py", File=File),
+             "Configuration": Config}
+
+    def parse(attrs, as_path):
+        box.update(attrs=attrs, assigned=[], raw=[], cfg_args=None,
+                   opened=None)
+        interp.steps = 0
+        arg = "model.rtdc" if as_path else File()
+        err = None
+        try:
+            out = Func(pc, globs, interp)(arg)
+            if not isinstance(out, Config):
+                err = "does not return the configuration"
+        except ModelRaise as e:
+            err = f"raises {e.name}"
+        return box["assigned"], box["cfg_args"], box["raw"], err
+    return pc, parse
+
+
+def r114(ctx, repo, setitem, mc, ml):
+    # ---- writer: store_metadata interpreted on a model file ----------
+    sm, store = _writer_model(repo, mc, ml)
+    meta = {"setup": {"channel width": "20", "medium": b"CellCarrier"},
+            "experiment": {"sample": "abc", "run index": 3},
+            "online_filter": {"area_um,deform soft limit": True,
+                              "area_um min": 1.5},
+            "fmt_tdms": {"video frame offset": 1},
+            "user": {"My Key": [1, 2], "note": b"bytes"}}
+    before = _copy.deepcopy(meta)
+    attrs, err = store(meta)
+    if err and not ctx.findings():
+        raise AnalysisError(f"store_metadata raises {err} for the model "
+                            "metadata")
+    bad_conv, bad_name, n_conv = [], [], 0
+    for sec, d in before.items():
+        if sec in ("user", "fmt_tdms"):
+            continue
+        for ck, v in d.items():
+            n_conv += 1
+            name = f"{sec}:{ck}"
+            if name not in attrs:
+                bad_name.append(f"[{sec}] '{ck}' is not written as "
+                                f"'{name}' (attributes: "
+                                f"{sorted(attrs)[:4]}...)")
+                continue
+            got = attrs[name]
+            if not isinstance(got, _Conv):
+                bad_conv.append(f"'{name}' is written as {got!r} without "
+                                "the converter")
+            elif (got.sec, got.key) != (sec, ck):
+                bad_conv.append(f"'{name}' is converted with the converter "
+                                f"of ({got.sec}, {got.key})")
+    ctx.ob("R11.4", not bad_conv, f"all {n_conv} non-user values are piped "
+           "through get_config_value_func(section, key)" if not bad_conv
+           else "store_metadata: " + bad_conv[0], node=sm,
+           label="converter on write")
+    ctx.ob("R11.4", not bad_name, "attributes are named 'section:key'"
+           if not bad_name else "store_metadata: " + bad_name[0], node=sm,
+           label="attribute name")
+    got = attrs.get("user:My Key")
+    ok = got == [1, 2] and not isinstance(got, _Conv)
+    ctx.ob("R11.4", ok, "user-defined values are written as given" if ok
+           else f"user-defined value [1, 2] is written as {got!r}", node=sm,
+           label="user stored as is")
+    b1 = attrs.get("setup:medium")
+    b1 = b1.value if isinstance(b1, _Conv) else b1
+    b2 = attrs.get("user:note")
+    ok = b1 == "CellCarrier" and b2 == "bytes"
+    ctx.ob("R11.4", ok, "bytes values are decoded before they are stored"
+           if ok else f"bytes values are stored as {b1!r} / {b2!r}",
+           node=sm, label="bytes decoded on write")
+    ok = not any(k.startswith("fmt_tdms") for k in attrs)
+    ctx.ob("R11.4", ok, "the fmt_tdms section is not written" if ok else
+           "the fmt_tdms section is written to the file", node=sm,
+           label="tdms section dropped", nontrivial=False)
+    ok = meta == before
+    ctx.ob("R11.4", ok, "the caller's mapping is left untouched" if ok else
+           "store_metadata modifies the caller's metadata in place",
+           node=sm, label="works on a copy", nontrivial=False)
+    for label, lab2, m2 in (
+            ("section guard", "sections outside CFG_METADATA (other than "
+             "user)", {"filtering": {"enable filters": True}}),
+            ("section guard unknown", "unknown sections",
+             {"bogus section": {"x": 1}}),
+            ("key guard", "keys unknown to config_key_exists",
+             {"setup": {"bogus key": 1}}),
+            ("key guard pattern", "online_filter keys of unknown features",
+             {"online_filter": {"nonfeat min": 1}})):
+        a2, e2 = store(m2)
+        wrote = [k for k in a2 if not k.startswith("setup:software")]
+        ok = e2 == "ValueError" and not wrote
+        ctx.ob("R11.4", ok, f"{lab2} are refused" if ok else
+               f"store_metadata accepts {lab2}: {m2} -> "
+               + (f"raises {e2}" if e2 else f"writes {wrote}"), node=sm,
+               label=label)
+
+    # ---- reader: parse_config interpreted ---------------------------
+    pc, parse = _reader_model(repo)
+    fattrs = {"setup:channel width": 20.0, "setup:medium": b"CellCarrier",
+              "experiment:sample": "abc", "user:My Key": 3,
+              "online_filter:area_um,deform soft limit": True}
+    want = sorted((k.split(":")[0], k.split(":")[1],
+                   v.decode() if isinstance(v, bytes) else v)
+                  for k, v in fattrs.items())
+    for as_path in (False, True):
+        how = "a path" if as_path else "an open file"
+        assigned, cargs, raw, err = parse(fattrs, as_path)
+        problems = []
+        if err:
+            problems.append(err)
+        elif raw:
+            problems.append(f"writes {raw[0]} into the raw dict")
+        elif sorted(assigned, key=repr) != sorted(want, key=repr):
+            miss = [w for w in want if w not in assigned]
+            problems.append(
+                f"assigns {assigned[:2]}..., expected every attribute as "
+                f"config[section][key] = decoded value (missing/wrong: "
+                f"{miss[:2]})")
+        ctx.ob("R11.4", not problems, f"given {how}, every attribute "
+               "'section:key' is assigned as config[section][key] with "
+               "byte strings decoded" if not problems else
+               f"parse_config given {how}: " + "; ".join(problems),
+               node=pc, label=f"assign through funnel ({how})")
+        if not err:
+            a, k = cargs or ((), {})
+            dis = k.get("disable_checks", a[2] if len(a) > 2 else False)
+            pre = bool(a[:2]) or any(x in k for x in ("files", "cfg"))
+            ok = cargs is not None and not dis and not pre
+            ctx.ob("R11.4", ok, "the parsed configuration validates its "
+                   "keys" if ok else "parse_config builds the "
+                   "configuration with checks disabled / pre-filled "
+                   "(values are stored unconverted)", node=pc,
+                   label=f"checking Configuration ({how})")
 
     # configuration file
     lf = repo.func(CONF, "load_from_file")
@@ -1354,6 +1434,8 @@ def r114(ctx, repo, setitem):
     for sec, key, val in model_file:
         want = setitem(sec, key, val)
         if len(want.stored) != 1:
+            if ctx.findings():
+                continue    # already reported by R11.1 - R11.3
             raise AnalysisError(f"model file: [{sec}] {key} = {val} is not "
                                 "storable by item assignment")
         wk, wv = want.stored[0]
@@ -1455,7 +1537,7 @@ def run(ctx):
     r111(ctx, repo)
     storable = r112(ctx, repo, mp, mc, ml, setitem)
     r113(ctx, repo, mp, mc, setitem, verify, bound_k)
-    r114(ctx, repo, setitem)
+    r114(ctx, repo, setitem, mc, ml)
     r115(ctx, repo, mp, mc, ml, storable)
     ctx.model = (mp, mc, ml)
     ctx.evals = ctx.stats.pop("_evals")
@@ -1854,4 +1936,69 @@ TWINS = list(TWINS) + [
     ("file key normalised in the other order", CONF,
      ("            var = var.strip().lower()\n            val = val.strip(",
       "            var = var.lower().strip()\n            val = val.strip(")),
+]
+
+# behaviour-preserving maintenance refactorings (reduced)
+TWINS = list(TWINS) + [
+    ("conversion extracted into a private method, early return", CONF,
+     [("        if valid:\n            # only set valid keys\n"
+       "            if self.section:\n"
+       "                typ = dfn.get_config_value_type(self.section, key)\n"
+       "                if typ is not None and not isinstance(value, typ):\n"
+       "                    warnings.warn(\n"
+       "                        f\"Type of configuration key "
+       "[{self.section}]: {key} \"\n"
+       "                        f\"should be {typ}, got {type(value)}!\",\n"
+       "                        WrongConfigurationTypeWarning)\n"
+       "                # convert value to its correct type (independent of "
+       "case above)\n"
+       "                convfunc = dfn.get_config_value_func(self.section, "
+       "key)\n"
+       "                value = convfunc(value)\n\n"
+       "            super(ConfigurationDict, self).__setitem__(key, value)\n",
+       "        if not valid:\n            return\n"
+       "        if self.section:\n"
+       "            value = self._check_and_convert_value(key, value)\n"
+       "        super(ConfigurationDict, self).__setitem__(key, value)\n\n"
+       "    def _check_and_convert_value(self, key, value):\n"
+       "        typ = dfn.get_config_value_type(self.section, key)\n"
+       "        if typ is not None and not isinstance(value, typ):\n"
+       "            warnings.warn(\n"
+       "                f\"Type of configuration key [{self.section}]: "
+       "{key} \"\n"
+       "                f\"should be {typ}, got {type(value)}!\",\n"
+       "                WrongConfigurationTypeWarning)\n"
+       "        convfunc = dfn.get_config_value_func(self.section, key)\n"
+       "        return convfunc(value)\n")]),
+    ("writer with a single attribute-assignment point", WR,
+     ("                if sec == \"user\":\n"
+      "                    # store user-defined metadata as-is\n"
+      "                    self.h5file.attrs[idk] = value\n"
+      "                else:\n"
+      "                    # pipe the metadata through the hard-coded "
+      "converter\n"
+      "                    # functions\n"
+      "                    convfunc = dfn.get_config_value_func(sec, ck)\n"
+      "                    self.h5file.attrs[idk] = convfunc(value)\n",
+      "                if sec != \"user\":\n"
+      "                    convfunc = dfn.get_config_value_func(sec, ck)\n"
+      "                    value = convfunc(value)\n"
+      "                self.h5file.attrs[idk] = value\n")),
+    ("reader iterates items(), isinstance branches swapped", H5,
+     [("        if not isinstance(h5path, h5py.File):\n"
+       "            with h5py.File(h5path, mode=\"r\") as fh5:\n"
+       "                h5attrs = dict(fh5.attrs)\n"
+       "        else:\n"
+       "            h5attrs = dict(h5path.attrs)\n",
+       "        if isinstance(h5path, h5py.File):\n"
+       "            h5attrs = dict(h5path.attrs)\n"
+       "        else:\n"
+       "            with h5py.File(h5path, mode=\"r\") as fh5:\n"
+       "                h5attrs = dict(fh5.attrs)\n"),
+      ("        for key in h5attrs:\n"
+       "            section, pname = key.split(\":\")\n"
+       "            config[section][pname] = h5attrs[key]\n",
+       "        for key, value in h5attrs.items():\n"
+       "            section, pname = key.split(\":\")\n"
+       "            config[section][pname] = value\n")]),
 ]
